@@ -233,6 +233,21 @@ func sampleCfgs(n, k int, seed int64) []int {
 
 type classKey struct{ harness, msg, pos string }
 
+func jobKey(j Job) string { return fmt.Sprintf("%s/%d/%s", j.Harness, j.Cfg, paramStr(j.Params)) }
+
+func paramStr(p map[string]int) string {
+	var ks []string
+	for k := range p {
+		ks = append(ks, k)
+	}
+	sort.Strings(ks)
+	var sb strings.Builder
+	for _, k := range ks {
+		fmt.Fprintf(&sb, "%s=%d ", k, p[k])
+	}
+	return strings.TrimSpace(sb.String())
+}
+
 func cmdCheck(args []string) int {
 	if len(args) < 2 {
 		fmt.Fprintln(os.Stderr, "usage: ruxsym check <property> <quick|thorough>")
@@ -264,6 +279,7 @@ func cmdCheck(args []string) int {
 	}
 
 	var jobs []Job
+	var deep [][][]Job // level -> harness -> jobs
 	nSkipped := 0
 	hspecOf := map[string]HarnessSpec{}
 	for _, h := range spec.Harnesses {
@@ -277,29 +293,90 @@ func cmdCheck(args []string) int {
 			return 2
 		}
 		hspecOf[h.Name] = h
-		params, n, k := h.Quick, h.NCfgQ, h.SampleQ
-		if tier == "thorough" {
-			params, n, k = h.Thorough, h.NCfgT, h.SampleT
-			if params == nil {
-				params = h.Quick
-			}
+		mk := func(params map[string]int, n, k int) []Job {
 			if n == 0 {
-				n = h.NCfgQ
+				n = 1
+			}
+			cfgList := sampleCfgs(n, k, seed)
+			if len(h.Cfgs) > 0 {
+				cfgList = h.Cfgs
+			}
+			var out []Job
+			for _, c := range cfgList {
+				p := map[string]int{}
+				for kk, v := range params {
+					p[kk] = v
+				}
+				out = append(out, Job{Pkg: h.Pkg, Harness: h.Name, Cfg: h.CfgBase + c, Params: p})
+			}
+			return out
+		}
+		quickJobs := mk(h.Quick, h.NCfgQ, h.SampleQ)
+		jobs = append(jobs, quickJobs...)
+		if tier == "thorough" {
+			// Deeper bounds come after every quick-tier job, one level at a time
+			// (each size parameter grows by one per level until it reaches the
+			// thorough value; the last level also uses the thorough configuration
+			// sample), harnesses interleaved within a level; all of them are
+			// subject to the time budget.
+			tp, tn, tk := h.Thorough, h.NCfgT, h.SampleT
+			if tp == nil {
+				tp = h.Quick
+			}
+			if tn == 0 {
+				tn = h.NCfgQ
+			}
+			levels := 1
+			for kk, v := range tp {
+				if d := v - h.Quick[kk]; d > levels {
+					levels = d
+				}
+			}
+			seen := map[string]bool{}
+			for _, j := range quickJobs {
+				seen[jobKey(j)] = true
+			}
+			for lv := 1; lv <= levels; lv++ {
+				params := map[string]int{}
+				for kk, v := range tp {
+					q, has := h.Quick[kk]
+					if !has || v < q+lv || lv == levels {
+						params[kk] = v
+					} else {
+						params[kk] = q + lv
+					}
+				}
+				lj := mk(params, h.NCfgQ, h.SampleQ)
+				if lv == levels {
+					lj = mk(params, tn, tk)
+				}
+				var dj []Job
+				for _, j := range lj {
+					if !seen[jobKey(j)] {
+						seen[jobKey(j)] = true
+						j.Stage = lv
+						dj = append(dj, j)
+					}
+				}
+				for len(deep) < lv {
+					deep = append(deep, nil)
+				}
+				deep[lv-1] = append(deep[lv-1], dj)
 			}
 		}
-		if n == 0 {
-			n = 1
-		}
-		cfgList := sampleCfgs(n, k, seed)
-		if len(h.Cfgs) > 0 {
-			cfgList = h.Cfgs
-		}
-		for _, c := range cfgList {
-			p := map[string]int{}
-			for kk, v := range params {
-				p[kk] = v
+	}
+	for _, level := range deep {
+		for i := 0; ; i++ {
+			any := false
+			for _, dj := range level {
+				if i < len(dj) {
+					jobs = append(jobs, dj[i])
+					any = true
+				}
 			}
-			jobs = append(jobs, Job{Pkg: h.Pkg, Harness: h.Name, Cfg: h.CfgBase + c, Params: p})
+			if !any {
+				break
+			}
 		}
 	}
 	if len(jobs) == 0 {
@@ -336,11 +413,38 @@ func cmdCheck(args []string) int {
 	if tier == "thorough" {
 		opts.WitnessPerJob = 130/len(jobs) + 2
 	}
+	budgetS := 0
+	if tier == "thorough" {
+		budgetS = 1800
+		if b, err := strconv.Atoi(os.Getenv("RUXSYM_BUDGET_S")); err == nil && b > 0 {
+			budgetS = b
+		}
+		opts.Deadline = t0.Add(time.Duration(budgetS) * time.Second)
+	}
 	results := runJobs(w, jobs, opts)
+	nDeep, nDeepDone := 0, 0
+	deepAll, deepDone := map[string]int{}, map[string]int{}
+	for _, r := range results {
+		if r != nil && r.Job.Stage > 0 {
+			k := r.Job.Harness + " " + paramStr(r.Job.Params)
+			nDeep++
+			deepAll[k]++
+			if r.Complete {
+				nDeepDone++
+				deepDone[k]++
+			}
+		}
+	}
+	deepList := []string{}
+	for k, n := range deepAll {
+		deepList = append(deepList, fmt.Sprintf("%s: %d of %d configurations fully explored", k, deepDone[k], n))
+	}
+	sort.Strings(deepList)
 
 	total := newJobStats()
 	var samples []any
 	violClasses := map[classKey]*Obligation{}
+	violExtra := map[classKey][]*Obligation{} // further counterexamples of the same class (tried when the first does not reproduce)
 	var classOrder []classKey
 	undis := map[string]int{}
 	incomplete := 0
@@ -352,6 +456,9 @@ func cmdCheck(args []string) int {
 		total.merge(r.Stats)
 		if !r.Complete {
 			incomplete++
+		}
+		if r.TimedOut {
+			undis[fmt.Sprintf("out of bound: time budget used up before the deeper bound %v of %s was fully explored (the quick-tier bound of the same harness was)", paramStr(r.Job.Params), r.Job.Harness)]++
 		}
 		for _, s := range r.Samples {
 			if len(samples) < 4 {
@@ -365,6 +472,8 @@ func cmdCheck(args []string) int {
 				if _, ok := violClasses[k]; !ok {
 					violClasses[k] = o
 					classOrder = append(classOrder, k)
+				} else if len(violExtra[k]) < 5 {
+					violExtra[k] = append(violExtra[k], o)
 				}
 			case "unknown":
 				undis["solver unknown/timeout: "+o.Harness+": "+o.Msg]++
@@ -385,18 +494,22 @@ func cmdCheck(args []string) int {
 	replayDir := filepath.Join(verifDir, "replays", prop)
 	byPkg := map[string][]string{}
 	fileOf := map[classKey]string{}
-	jobOf := map[string]Job{}
-	for _, j := range jobs {
-		jobOf[fmt.Sprintf("%s/%d", j.Harness, j.Cfg)] = j
-	}
+	extraFiles := map[classKey][]string{}
+	extraObl := map[string]*Obligation{}
 	for _, k := range classOrder {
-		o := violClasses[k]
-		j := jobOf[fmt.Sprintf("%s/%d", o.Harness, o.Cfg)]
-		rs := replaySpec{Property: prop, Package: j.Pkg, Harness: o.Harness, Cfg: o.Cfg, Params: j.Params, Vals: o.Model,
-			Expect: o.Msg, Pos: o.Pos, Prefix: o.Prefix, MapOrder: o.MapOrder}
-		p := writeReplay(replayDir, rs)
-		fileOf[k] = p
-		byPkg[j.Pkg] = append(byPkg[j.Pkg], p)
+		for idx, o := range append([]*Obligation{violClasses[k]}, violExtra[k]...) {
+			j := Job{Pkg: o.Pkg, Harness: o.Harness, Cfg: o.Cfg, Params: o.Params}
+			rs := replaySpec{Property: prop, Package: j.Pkg, Harness: o.Harness, Cfg: o.Cfg, Params: j.Params, Vals: o.Model,
+				Expect: o.Msg, Pos: o.Pos, Prefix: o.Prefix, MapOrder: o.MapOrder}
+			p := writeReplay(replayDir, rs)
+			if idx == 0 {
+				fileOf[k] = p
+			} else {
+				extraFiles[k] = append(extraFiles[k], p)
+				extraObl[p] = o
+			}
+			byPkg[j.Pkg] = append(byPkg[j.Pkg], p)
+		}
 	}
 	nViol, nSpurious, nKnown := 0, 0, 0
 	var violSamples []any
@@ -418,6 +531,21 @@ func cmdCheck(args []string) int {
 				continue
 			}
 			o := violClasses[k]
+			if r.Status != "REPRODUCED" {
+				// the first counterexample of the class did not reproduce: try the others
+				for _, xf := range extraFiles[k] {
+					if xr, ok := res[xf]; ok && xr.Status == "REPRODUCED" {
+						os.Remove(f)
+						f, r, o = xf, xr, extraObl[xf]
+						break
+					}
+				}
+			}
+			for _, xf := range extraFiles[k] {
+				if xf != f {
+					os.Remove(xf)
+				}
+			}
 			if r.Status == "REPRODUCED" {
 				if kf, isKnown := knownByHarness[o.Harness]; isKnown {
 					fmt.Printf("KNOWN-FINDING: property=%s %s %s (witness %s reproduced natively)\n", prop, kf.ID, kf.What, filepath.Base(f))
@@ -582,6 +710,10 @@ func cmdCheck(args []string) int {
 			"known_findings_reproduced":     nKnown,
 			"jobs":                          len(jobs),
 			"jobs_incomplete":               incomplete,
+			"deeper_bound_jobs":             nDeep,
+			"deeper_bound_jobs_completed":   nDeepDone,
+			"deeper_bound_time_budget_s":    budgetS,
+			"deeper_bounds":                 deepList,
 			"forks":                         total.Forks,
 			"functions_encoded":             funcs,
 			"intrinsics_used":               intr,
